@@ -209,6 +209,8 @@ type harnessEvidence struct {
 	Unsat          int               `json:"queries_unsat"`
 	Unknown        int               `json:"queries_unknown"`
 	Fallback       int               `json:"queries_decided_by_second_solver"`
+	CrossChecked   int               `json:"assertions_cross_checked_by_second_solver"`
+	CrossDisagree  int               `json:"cross_solver_disagreements"`
 	Asserts        int               `json:"assertions_checked"`
 	AssertsUnknown int               `json:"assertions_undecided"`
 	SolverS        float64           `json:"solver_time_s"`
@@ -313,6 +315,10 @@ func cmdCheck(args []string) int {
 		}
 		eng.Thorough = *tier == "thorough"
 		eng.ScheduleAll = ck.ScheduleAll
+		eng.CrossEvery = 16
+		if eng.Thorough {
+			eng.CrossEvery = 1
+		}
 		if ms, ok := ck.QueryMs[*tier]; ok {
 			eng.QueryTimeoutMs = ms
 		} else if eng.Thorough {
@@ -346,7 +352,7 @@ func cmdCheck(args []string) int {
 			}
 			res := eng.Explore(cfg)
 			he := harnessEvidence{Name: n, Paths: res.Paths, ByKind: res.ByKind, Reached: res.Reached, Decisions: res.Decisions, Steps: res.Steps,
-				Queries: res.Queries, Sat: res.QSat, Unsat: res.QUnsat, Unknown: res.QUnknown, Fallback: res.Fallback, SolverS: res.SolverTime.Seconds(), WallS: res.Wall.Seconds(),
+				Queries: res.Queries, Sat: res.QSat, Unsat: res.QUnsat, Unknown: res.QUnknown, Fallback: res.Fallback, CrossChecked: res.CrossChecked, CrossDisagree: res.CrossDisagree, SolverS: res.SolverTime.Seconds(), WallS: res.Wall.Seconds(),
 				Truncated: res.Truncated, Notes: res.Notes, Incomplete: res.Incomplete, Samples: res.Samples, Asserts: res.Asserts, AssertsUnknown: res.AssertsUnknown}
 			for in := range res.Inputs {
 				he.Inputs = append(he.Inputs, in)
@@ -378,6 +384,9 @@ func cmdCheck(args []string) int {
 			}
 			if res.QUnknown > 0 || res.SolverErrs > 0 {
 				inconclusive = append(inconclusive, fmt.Sprintf("%s: %d solver unknown/timeouts, %d solver errors", n, res.QUnknown, res.SolverErrs))
+			}
+			if res.CrossDisagree > 0 {
+				inconclusive = append(inconclusive, fmt.Sprintf("%s: %d cross-solver disagreement(s)", n, res.CrossDisagree))
 			}
 			if res.Truncated {
 				inconclusive = append(inconclusive, n+": exploration truncated (path or time budget)")
